@@ -27,7 +27,7 @@ ASSUMPTIONS = ["output tables have temperatures as rows and pressures as columns
                "T-LIB: RectBivariateSpline(x, y, z)(xi, yi, grid=False) evaluates pointwise with x <-> rows of z"]
 
 
-from ..tablemodel import Axis, Table, Grid2, Line1, SeriesV, OutTable, ARGMIN, ABS, labels, role_of, canon_pos, intrinsics as table_intrinsics
+from ..tablemodel import Axis, Table, Grid2, Line1, SeriesV, OutTable, ARGMIN, ABS, labels, role_of, canon_pos, PART_ROLES, intrinsics as table_intrinsics
 
 
 def fold_extract(ctx, model, temperature=None, pressure=None):
@@ -201,6 +201,34 @@ def dtype_from_geotherm(f):
     return bad
 
 
+def covering_slice(sl, role):
+    """the slice of the axis `role` contains every node from the one at or below the geotherm's smallest value to the one at or above its largest"""
+    from ..sym import SliceV
+    S_R, S_L, MINF, MAXF, LENF = (sp.Function(nm) for nm in ("SEARCHSORTED_right", "SEARCHSORTED_left", "MIN", "MAX", "LEN"))
+    L, V = labels(role), sp.Symbol("GEO_" + role)
+    if not isinstance(sl, SliceV) or sl.step is not None:
+        return False
+    from sympy.core.function import AppliedUndef
+    # undefined functions are compared by name (the same atom is created with and without assumptions in different modules)
+    plain = lambda e: sp.sympify(e).replace(lambda x_: isinstance(x_, AppliedUndef), lambda x_: sp.Function(x_.func.__name__)(*x_.args))
+    sl = SliceV(None if sl.lo is None else plain(sl.lo), None if sl.hi is None else plain(sl.hi), None)
+    if sl.lo is not None and sp.sympify(sl.lo) != 0:
+        lo = sp.sympify(sl.lo)
+        inner = [a for a in lo.args if a != 0] if isinstance(lo, sp.Max) and 0 in lo.args and len(lo.args) == 2 else [lo]
+        d = sp.expand(inner[0] - S_R(L, MINF(V)))
+        if not (d.is_Integer and d <= -1):           # at or below the node at or below the smallest value
+            return False
+    if sl.hi is not None:
+        hi = sp.sympify(sl.hi)
+        parts = list(hi.args) if isinstance(hi, sp.Min) else [hi]
+        cover = [p_ for p_ in parts if sp.expand(p_ - S_L(L, MAXF(V))).is_Integer]
+        clip = [p_ for p_ in parts if sp.expand(p_ - LENF(L)).is_Integer]
+        # exclusive end beyond the node at or above the largest value; clipped to the length, not below it
+        if not (len(cover) == 1 and len(cover) + len(clip) == len(parts) and sp.expand(cover[0] - S_L(L, MAXF(V))) >= 1 and all(sp.expand(c_ - LENF(L)) >= 0 for c_ in clip)):
+            return False
+    return True
+
+
 def r_geotherm(ctx, model):
     ref = f"{GEO}:main"
     f = model.func(ref)
@@ -293,8 +321,28 @@ def r_geotherm(ctx, model):
         z = b.get("z")
         if isinstance(z, Table):
             z = z.values()
-        if {rx, ry} != {"T", "P"} or not isinstance(z, Grid2) or (z.r, z.c) != (rx, ry) or z.var != var or getattr(z, "window", None) is not None:
-            bad.append(f"spline axes x={b.get('x')} y={b.get('y')} z={z!r}: rows of z must run along x (variable {var})")
+        win = getattr(z, "window", None) if isinstance(z, Grid2) else None
+        if isinstance(z, Grid2) and (z.r in PART_ROLES or z.c in PART_ROLES):
+            # the spline is fitted on a part of the table: accepted when, along each axis, the part provably contains the hull of the geotherm's
+            # values (from the node at or below the smallest up to the node at or above the largest, clipped to the table's length) and the label
+            # vectors handed to the spline are the same parts of the axes
+            okp = True
+            base = []
+            for role, lab in ((z.r, b.get("x")), (z.c, b.get("y"))):
+                if role in PART_ROLES:
+                    br, sl = PART_ROLES[role]
+                    okp = okp and br in ("T", "P") and covering_slice(sl, br) and is_sym(lab) and sp.sympify(lab) == labels(role)
+                    base.append(br)
+                else:
+                    okp = okp and is_sym(lab) and sp.sympify(lab) == labels(role)
+                    base.append(role)
+            if okp:
+                rx, ry = base
+                z = Grid2(z.var, base[0], base[1])
+            else:
+                win = "part"
+        if {rx, ry} != {"T", "P"} or not isinstance(z, Grid2) or (z.r, z.c) != (rx, ry) or z.var != var or win is not None:
+            bad.append(f"spline axes x={b.get('x')} y={b.get('y')} z={z!r}: rows of z must run along x and the fitted block must contain every node around the geotherm (variable {var})")
         geo_role = {sp.Symbol("GEO_T"): "T", sp.Symbol("GEO_P"): "P"}
         got = tuple(geo_role.get(a) for a in args[:2]) if len(args) == 2 else None
         if got != (rx, ry):
